@@ -18,6 +18,7 @@ Arguments tl_try : simpl never.
 Arguments tl_rel_raises : simpl never.
 Arguments normalise : simpl never.
 Arguments faulty : simpl never.
+Arguments intr : simpl never.
 Arguments enabled : simpl never.
 Arguments step : simpl never.
 Arguments run_alone : simpl never.
@@ -223,16 +224,16 @@ Proof.
 Qed.
 
 Section Refine.
-Variables (reent : oid -> bool) (dflt : oid -> tmo).
+Variables (reent : oid -> bool) (dflt : oid -> tmo) (oproc : oid -> pid) (tproc : tid -> pid).
 
 Definition pristine (ob : obj) : Prop := o_fd ob = None /\ o_own ob = None /\ o_cnt ob = 0 /\ o_dep ob = 0.
 
 (* representation invariant + abstraction, for the states between two calls *)
 Record Rq (s : state) (st : sstate) : Prop := mkRq {
-  q_thr : forall t, t_pc (thr s t) = PIdle /\ t_proc (thr s t) = 0;
+  q_thr : forall t, t_pc (thr s t) = PIdle /\ t_proc (thr s t) = tproc t;
   q_dead : forall p, dead s p = false;
   q_faults : faults s = [];
-  q_cfg : forall o, o_proc (objs s o) = 0 /\ o_reent (objs s o) = reent o /\ o_dflt (objs s o) = dflt o;
+  q_cfg : forall o, o_proc (objs s o) = oproc o /\ o_reent (objs s o) = reent o /\ o_dflt (objs s o) = dflt o;
   q_kern : (forall h, holder s = Some h -> h < nextfd s) /\ (forall d q, fdown s d = Some q -> d < nextfd s);
   q_fds : forall d q, fdown s d = Some q -> holder s = Some d;     (* no descriptor is open except the holder's *)
   q_hopen : forall h, holder s = Some h -> fdown s h <> None;
@@ -266,8 +267,8 @@ Proof. unfold spec_no. now rewrite waits_forever_norm. Qed.
 (* Rq after an acquire/release that changed only object o and thread t *)
 Lemma Rq_frame s s' st st' t o pend h :
   Rq s st -> Frame s t o s' pend h ->
-  t_pc (thr s' t) = PIdle -> t_proc (thr s' t) = 0 ->
-  o_proc (objs s' o) = 0 /\ o_reent (objs s' o) = reent o /\ o_dflt (objs s' o) = dflt o ->
+  t_pc (thr s' t) = PIdle -> t_proc (thr s' t) = tproc t ->
+  o_proc (objs s' o) = oproc o /\ o_reent (objs s' o) = reent o /\ o_dflt (objs s' o) = dflt o ->
   (forall hh, h = Some hh -> hh < nextfd s') ->
   (forall d q, fdown s' d = Some q -> h = Some d) ->
   (forall hh, h = Some hh -> fdown s' hh <> None) ->
@@ -319,7 +320,7 @@ Lemma fail_result_not_true m : fail_result m <> RTrue /\ fail_result m <> RWould
 Proof. destruct m; split; discriminate. Qed.
 
 Theorem acq_refines s st t o m blk tm poll skip fuel :
-  Rq s st ->
+  Rq s st -> oproc o = tproc t ->
   let tm' := snd (norm' (dflt o) blk tm) in
   (forall T, tm' = TVal T -> (1 <= poll)%N) -> acq_fuel tm' poll <= fuel ->
   let res := do_call fuel s t (CAcq o m blk tm poll skip) in
@@ -327,7 +328,7 @@ Theorem acq_refines s st t o m blk tm poll skip fuel :
   snd res = (if snd sp then RTrue else spec_no (dflt o) m blk tm) /\
   (snd res <> RWouldBlock -> Rq (fst res) (fst sp)).
 Proof.
-  intros Q tm' Hp Hfu res sp. pose proof Q as [Qt Qd Qf Qc [Qk1 Qk2] Qfd Qho Qa].
+  intros Q Hsame tm' Hp Hfu res sp. pose proof Q as [Qt Qd Qf Qc [Qk1 Qk2] Qfd Qho Qa].
   destruct (Qt t) as [Hpc Hpr]. destruct (Qc o) as (Co1 & Co2 & Co3).
   assert (Hal : dead s (t_proc (thr s t)) = false) by apply Qd.
   assert (Hpro : o_proc (objs s o) = t_proc (thr s t)) by congruence.
@@ -474,7 +475,7 @@ Proof.
      (forall d q, fdown s1 d = Some q -> d < nextfd s1) ->
      (forall d q, fdown s1 d = Some q -> holder s1 = Some d) ->
      (forall hh, holder s1 = Some hh -> fdown s1 hh <> None) ->
-     o_proc (objs s1 o) = 0 /\ o_reent (objs s1 o) = reent o /\ o_dflt (objs s1 o) = dflt o ->
+     o_proc (objs s1 o) = oproc o /\ o_reent (objs s1 o) = reent o /\ o_dflt (objs s1 o) = dflt o ->
      match st' with
      | None => holder s1 = None /\ forall o', pristine (objs s1 o')
      | Some (o1, t1, d1) =>
@@ -613,21 +614,28 @@ Proof.
   destruct (Nat.eqb o o1); cbn; [|lia]. destruct (f || (d1 <=? 1)); cbn; lia.
 Qed.
 
+(* a thread uses objects of its own process only *)
+Definition call_proc_ok (tc : tid * call) : Prop :=
+  match snd tc with CAcq o _ _ _ _ _ => oproc o = tproc (fst tc) | CRel _ _ => True end.
+
 Theorem refines_lemma fuel : forall ops s st,
   Rq s st -> ok_calls st ops = true ->
+  (forall tc, In tc ops -> call_proc_ok tc) ->
   (forall tc, In tc ops -> call_fuel_ok fuel (snd tc)) ->
   depth st + length ops + 4 <= fuel ->
   fst (run_calls fuel s ops) = fst (spec_calls st ops) /\
   (no_block (fst (spec_calls st ops)) = true -> Rq (snd (run_calls fuel s ops)) (snd (spec_calls st ops))).
 Proof.
-  induction ops as [|[t c] rest IH]; intros s st Q Hok Hfu Hd; [cbn; auto|].
+  induction ops as [|[t c] rest IH]; intros s st Q Hok Hpo Hfu Hd; [cbn; auto|].
   cbn [run_calls spec_calls ok_calls] in *. apply andb_prop in Hok. destruct Hok as [Hc Hok].
   assert (Hfc : call_fuel_ok fuel c) by (apply (Hfu (t, c)); now left).
   assert (Hfr : forall tc, In tc rest -> call_fuel_ok fuel (snd tc)) by (intros; apply Hfu; now right).
+  assert (Hpc : call_proc_ok (t, c)) by (apply Hpo; now left).
+  assert (Hpr : forall tc, In tc rest -> call_proc_ok tc) by (intros; apply Hpo; now right).
   cbn [length] in Hd.
   destruct c as [o m blk tm poll skip|o force].
   - destruct Hfc as [Hp Hf].
-    destruct (acq_refines s st t o m blk tm poll skip fuel Q Hp Hf) as [Er Eq].
+    destruct (acq_refines s st t o m blk tm poll skip fuel Q Hpc Hp Hf) as [Er Eq].
     unfold spec_call in *. 
     destruct (spec_acquire st t o (reent o)) as [st1 b] eqn:Esp. cbn [fst snd] in *.
     destruct (do_call fuel s t (CAcq o m blk tm poll skip)) as [s1 r] eqn:Edo. cbn [fst snd] in *.
@@ -635,21 +643,21 @@ Proof.
     { pose proof (spec_acquire_depth st t o (reent o)) as Z. now rewrite Esp in Z. }
     subst r. destruct b.
     + assert (Q1 : Rq s1 st1) by (apply Eq; discriminate).
-      destruct (IH s1 st1 Q1 Hok Hfr) as [I1 I2]; [lia|].
+      destruct (IH s1 st1 Q1 Hok Hpr Hfr) as [I1 I2]; [lia|].
       destruct (run_calls fuel s1 rest) as [rs s2]. destruct (spec_calls st1 rest) as [rs' st2]. cbn in *.
       split; [congruence|]. auto.
     + unfold spec_no in *. destruct (waits_forever (dflt o) blk tm).
       * cbn. split; auto. discriminate.
       * assert (Q1 : Rq s1 st1) by (apply Eq; destruct m; discriminate).
         assert (Hok' : ok_calls st1 rest = true) by (destruct m; exact Hok).
-        destruct (IH s1 st1 Q1 Hok' Hfr) as [I1 I2]; [lia|].
+        destruct (IH s1 st1 Q1 Hok' Hpr Hfr) as [I1 I2]; [lia|].
         destruct (run_calls fuel s1 rest) as [rs s2]. destruct (spec_calls st1 rest) as [rs' st2].
         destruct m; cbn in *; (split; [congruence|auto]).
   - cbn in Hc. destruct (rel_refines s st t o force fuel Q Hc) as [Er Eq]; [lia|].
     unfold spec_call in *.
     destruct (do_call fuel s t (CRel o force)) as [s1 r] eqn:Edo. cbn [fst snd] in *. subst r.
     pose proof (spec_release_depth st o force) as Hd1.
-    destruct (IH s1 (spec_release st o force) Eq Hok Hfr) as [I1 I2]; [lia|].
+    destruct (IH s1 (spec_release st o force) Eq Hok Hpr Hfr) as [I1 I2]; [lia|].
     destruct (run_calls fuel s1 rest) as [rs s2]. destruct (spec_calls (spec_release st o force) rest) as [rs' st2]. cbn in *.
     split; [congruence|auto].
 Qed.
@@ -707,7 +715,7 @@ Lemma nth_fun_thr0 (l : list nat) t : nth_fun (map (fun _ => thr0 0 []) l) (thr0
 Proof. revert t. induction l as [|x r IH]; intros [|t]; cbn; auto. Qed.
 
 Lemma Rq_init nT cfg :
-  Rq (Case_C12.cfg_reent cfg) (Case_C12.cfg_dflt cfg) (Case_C12.init_seq nT cfg []) None.
+  Rq (Case_C12.cfg_reent cfg) (Case_C12.cfg_dflt cfg) (fun _ => 0) (fun _ => 0) (Case_C12.init_seq nT cfg []) None.
 Proof.
   unfold Case_C12.init_seq, init. constructor; cbn.
   - intros t. rewrite nth_fun_thr0. auto.
@@ -733,12 +741,14 @@ Theorem refines_rlock_spec_lemma :
     let spec := spec_calls reent dflt None ops in
     fst conc = fst spec /\
     (no_block (fst spec) = true ->
-       Rq reent dflt (snd conc) (snd spec) /\
+       Rq reent dflt (fun _ => 0) (fun _ => 0) (snd conc) (snd spec) /\
        (forall o, is_locked (snd conc) o = spec_is_locked (snd spec) o) /\
        nfds (snd conc) = match snd spec with Some _ => 1 | None => 0 end).
 Proof.
   intros nT cfg ops fuel reent dflt Hok Hfu Hd conc spec.
-  destruct (refines_lemma reent dflt fuel ops _ None (Rq_init nT cfg) Hok Hfu) as [A B]; [cbn; lia|].
+  assert (Hpo : forall tc, In tc ops -> call_proc_ok (fun _ => 0) (fun _ => 0) tc) by (intros [t' c'] _; destruct c'; cbn; auto).
+  assert (Hd' : depth None + length ops + 4 <= fuel) by (cbn; lia).
+  destruct (refines_lemma reent dflt (fun _ => 0) (fun _ => 0) fuel ops _ None (Rq_init nT cfg) Hok Hpo Hfu Hd') as [A B].
   split; auto. intros Nb. specialize (B Nb). split; auto. split.
   - intros o. eapply Rq_is_locked; eauto.
   - eapply Rq_nfds; eauto.
@@ -747,25 +757,25 @@ Qed.
 (* consequences for a single call in any state between two calls of such a sequence *)
 
 Theorem acquire_true_iff_holds_lemma :
-  forall reent dflt s st t o m blk tm poll skip fuel,
-    Rq reent dflt s st -> call_fuel_ok dflt fuel (CAcq o m blk tm poll skip) ->
+  forall reent dflt oproc tproc s st t o m blk tm poll skip fuel,
+    Rq reent dflt oproc tproc s st -> oproc o = tproc t -> call_fuel_ok dflt fuel (CAcq o m blk tm poll skip) ->
     let res := do_call fuel s t (CAcq o m blk tm poll skip) in
     let st' := fst (spec_acquire st t o (reent o)) in
     (snd res = RTrue <-> snd (spec_acquire st t o (reent o)) = true) /\
-    (snd res = RTrue -> Rq reent dflt (fst res) st' /\ exists d, held st' o = Some (t, d) /\ is_locked (fst res) o = true) /\
-    (snd res = RFalse \/ snd res = RTimeout -> Rq reent dflt (fst res) st /\ st' = st).
+    (snd res = RTrue -> Rq reent dflt oproc tproc (fst res) st' /\ exists d, held st' o = Some (t, d) /\ is_locked (fst res) o = true) /\
+    (snd res = RFalse \/ snd res = RTimeout -> Rq reent dflt oproc tproc (fst res) st /\ st' = st).
 Proof.
-  intros reent dflt s st t o m blk tm poll skip fuel Q [Hp Hf] res st'.
-  destruct (acq_refines reent dflt s st t o m blk tm poll skip fuel Q Hp Hf) as [Er Eq]. fold res in Er, Eq.
+  intros reent dflt oproc tproc s st t o m blk tm poll skip fuel Q Hsp [Hp Hf] res st'.
+  destruct (acq_refines reent dflt oproc tproc s st t o m blk tm poll skip fuel Q Hsp Hp Hf) as [Er Eq]. fold res in Er, Eq.
   assert (Hno : spec_no (dflt o) m blk tm <> RTrue) by (unfold spec_no; destruct (waits_forever _ _ _), m; discriminate).
   split; [|split].
   - rewrite Er. destruct (snd (spec_acquire st t o (reent o))); split; auto; try congruence; try discriminate.
-  - intros E. assert (Q' : Rq reent dflt (fst res) st') by (apply Eq; rewrite E; discriminate). split; auto.
+  - intros E. assert (Q' : Rq reent dflt oproc tproc (fst res) st') by (apply Eq; rewrite E; discriminate). split; auto.
     rewrite E in Er. unfold st' in *. unfold spec_acquire in *.
     destruct st as [[[o1 t1] d1]|]; cbn in *.
     + destruct (Nat.eqb o o1 && Nat.eqb t t1 && reent o) eqn:Eb; cbn in *; [|congruence].
-      exists (S d1). rewrite Nat.eqb_refl. split; auto. rewrite (Rq_is_locked _ _ _ _ o Q'). unfold spec_is_locked, held. now rewrite Nat.eqb_refl.
-    + exists 1. rewrite Nat.eqb_refl. split; auto. rewrite (Rq_is_locked _ _ _ _ o Q'). unfold spec_is_locked, held. now rewrite Nat.eqb_refl.
+      exists (S d1). rewrite Nat.eqb_refl. split; auto. rewrite (Rq_is_locked _ _ _ _ _ _ o Q'). unfold spec_is_locked, held. now rewrite Nat.eqb_refl.
+    + exists 1. rewrite Nat.eqb_refl. split; auto. rewrite (Rq_is_locked _ _ _ _ _ _ o Q'). unfold spec_is_locked, held. now rewrite Nat.eqb_refl.
   - intros E. assert (Eb : snd (spec_acquire st t o (reent o)) = false).
     { destruct (snd (spec_acquire st t o (reent o))); auto. rewrite Er in E. destruct E; discriminate. }
     assert (Est : st' = st).
@@ -774,47 +784,110 @@ Proof.
 Qed.
 
 Theorem reacquire_after_release_lemma :
-  forall reent dflt s o t d force fuel t2 o2 m blk tm poll skip,
-    Rq reent dflt s (Some (o, t, d)) -> (force = true \/ d = 1) ->
-    d + 4 <= fuel -> call_fuel_ok dflt fuel (CAcq o2 m blk tm poll skip) ->
+  forall reent dflt oproc tproc s o t d force fuel t2 o2 m blk tm poll skip,
+    Rq reent dflt oproc tproc s (Some (o, t, d)) -> (force = true \/ d = 1) ->
+    d + 4 <= fuel -> oproc o2 = tproc t2 -> call_fuel_ok dflt fuel (CAcq o2 m blk tm poll skip) ->
     let s1 := fst (do_call fuel s t (CRel o force)) in
-    Rq reent dflt s1 None /\ (forall o', is_locked s1 o' = false) /\
+    Rq reent dflt oproc tproc s1 None /\ (forall o', is_locked s1 o' = false) /\
     snd (do_call fuel s1 t2 (CAcq o2 m blk tm poll skip)) = RTrue.
 Proof.
-  intros reent dflt s o t d force fuel t2 o2 m blk tm poll skip Q Hf Hd [Hp Hfu] s1.
-  destruct (rel_refines reent dflt s (Some (o, t, d)) t o force fuel Q) as [_ Q1]; [|cbn; lia|].
+  intros reent dflt oproc tproc s o t d force fuel t2 o2 m blk tm poll skip Q Hf Hd Hsp [Hp Hfu] s1.
+  destruct (rel_refines reent dflt oproc tproc s (Some (o, t, d)) t o force fuel Q) as [_ Q1]; [|cbn; lia|].
   { unfold spec_may_release, held. now rewrite !Nat.eqb_refl. }
   fold s1 in Q1. cbn in Q1. rewrite Nat.eqb_refl in Q1.
   assert (E : force || (d <=? 1) = true) by (destruct Hf as [-> | ->]; [reflexivity|apply orb_true_r]).
   rewrite E in Q1. split; auto. split.
-  - intros o'. rewrite (Rq_is_locked _ _ _ _ o' Q1). reflexivity.
-  - destruct (acq_refines reent dflt s1 None t2 o2 m blk tm poll skip fuel Q1 Hp Hfu) as [Er _]. exact Er.
+  - intros o'. rewrite (Rq_is_locked _ _ _ _ _ _ o' Q1). reflexivity.
+  - destruct (acq_refines reent dflt oproc tproc s1 None t2 o2 m blk tm poll skip fuel Q1 Hsp Hp Hfu) as [Er _]. exact Er.
 Qed.
 
 Theorem nonreentrant_refuses_lemma :
-  forall reent dflt s o t d t2 m blk tm poll skip fuel,
-    Rq reent dflt s (Some (o, t, d)) -> reent o = false ->
+  forall reent dflt oproc tproc s o t d t2 m blk tm poll skip fuel,
+    Rq reent dflt oproc tproc s (Some (o, t, d)) -> reent o = false -> oproc o = tproc t2 ->
     call_fuel_ok dflt fuel (CAcq o m blk tm poll skip) ->
     let res := do_call fuel s t2 (CAcq o m blk tm poll skip) in
     snd res = spec_no (dflt o) m blk tm /\ snd res <> RTrue /\
-    (snd res <> RWouldBlock -> Rq reent dflt (fst res) (Some (o, t, d))).
+    (snd res <> RWouldBlock -> Rq reent dflt oproc tproc (fst res) (Some (o, t, d))).
 Proof.
-  intros reent dflt s o t d t2 m blk tm poll skip fuel Q Hr [Hp Hfu] res.
-  destruct (acq_refines reent dflt s (Some (o, t, d)) t2 o m blk tm poll skip fuel Q Hp Hfu) as [Er Eq].
+  intros reent dflt oproc tproc s o t d t2 m blk tm poll skip fuel Q Hr Hsp [Hp Hfu] res.
+  destruct (acq_refines reent dflt oproc tproc s (Some (o, t, d)) t2 o m blk tm poll skip fuel Q Hsp Hp Hfu) as [Er Eq].
   fold res in Er, Eq. cbn in Er, Eq. rewrite Hr, andb_false_r in Er, Eq. cbn in Er, Eq.
   split; auto. split; auto. rewrite Er. unfold spec_no. destruct (waits_forever _ _ _), m; discriminate.
 Qed.
 
 Theorem only_outermost_release_frees_lemma :
-  forall reent dflt s o t d fuel,
-    Rq reent dflt s (Some (o, t, d)) -> 2 <= d -> d + 4 <= fuel ->
+  forall reent dflt oproc tproc s o t d fuel,
+    Rq reent dflt oproc tproc s (Some (o, t, d)) -> 2 <= d -> d + 4 <= fuel ->
     let s1 := fst (do_call fuel s t (CRel o false)) in
-    Rq reent dflt s1 (Some (o, t, pred d)) /\ is_locked s1 o = true.
+    Rq reent dflt oproc tproc s1 (Some (o, t, pred d)) /\ is_locked s1 o = true.
 Proof.
-  intros reent dflt s o t d fuel Q Hd Hfu s1.
-  destruct (rel_refines reent dflt s (Some (o, t, d)) t o false fuel Q) as [_ Q1]; [|cbn; lia|].
+  intros reent dflt oproc tproc s o t d fuel Q Hd Hfu s1.
+  destruct (rel_refines reent dflt oproc tproc s (Some (o, t, d)) t o false fuel Q) as [_ Q1]; [|cbn; lia|].
   { unfold spec_may_release, held. now rewrite !Nat.eqb_refl. }
   fold s1 in Q1. cbn in Q1. rewrite Nat.eqb_refl in Q1.
   assert (E : (d <=? 1) = false) by (apply Nat.leb_gt; lia). rewrite E in Q1. split; auto.
-  rewrite (Rq_is_locked _ _ _ _ o Q1). unfold spec_is_locked, held. now rewrite Nat.eqb_refl.
+  rewrite (Rq_is_locked _ _ _ _ _ _ o Q1). unfold spec_is_locked, held. now rewrite Nat.eqb_refl.
+Qed.
+
+(* ---------- several processes ----------------------------------------------------------------------- *)
+(* objects and threads of ANY processes on the one lock path (init_cfg); a thread uses objects of its
+   own process (call_proc_ok); the abstract state is still ONE optional (object, thread, depth): at most
+   one object — hence at most one process — holds the path *)
+
+Definition cfgo_proc (ocfg : list (pid * bool * tmo)) (o : oid) : pid :=
+  match nth_error ocfg o with Some c => fst (fst c) | None => 0 end.
+Definition cfgo_reent (ocfg : list (pid * bool * tmo)) (o : oid) : bool :=
+  match nth_error ocfg o with Some c => snd (fst c) | None => false end.
+Definition cfgo_dflt (ocfg : list (pid * bool * tmo)) (o : oid) : tmo :=
+  match nth_error ocfg o with Some c => snd c | None => TNeg end.
+Definition cfgt_proc (tcfg : list (pid * list call)) (t : tid) : pid :=
+  match nth_error tcfg t with Some c => fst c | None => 0 end.
+
+Lemma nth_fun_ocfg ocfg o :
+  nth_fun (map (fun c : pid * bool * tmo => obj0 (fst (fst c)) (snd (fst c)) (snd c)) ocfg) (obj0 0 false TNeg) o
+  = obj0 (cfgo_proc ocfg o) (cfgo_reent ocfg o) (cfgo_dflt ocfg o).
+Proof. unfold cfgo_proc, cfgo_reent, cfgo_dflt. revert o. induction ocfg as [|x r IH]; intros [|o]; cbn; auto. Qed.
+
+Lemma nth_fun_tcfg tcfg t :
+  exists pr, nth_fun (map (fun c : pid * list call => thr0 (fst c) (snd c)) tcfg) (thr0 0 []) t = thr0 (cfgt_proc tcfg t) pr.
+Proof. unfold cfgt_proc. revert t. induction tcfg as [|x r IH]; intros [|t]; cbn; eauto. Qed.
+
+Lemma Rq_init_cfg ocfg tcfg :
+  Rq (cfgo_reent ocfg) (cfgo_dflt ocfg) (cfgo_proc ocfg) (cfgt_proc tcfg) (init_cfg ocfg tcfg []) None.
+Proof.
+  unfold init_cfg, init. constructor; cbn.
+  - intros t. destruct (nth_fun_tcfg tcfg t) as [pr ->]. auto.
+  - auto.
+  - auto.
+  - intros o. rewrite nth_fun_ocfg. auto.
+  - split; intros; discriminate.
+  - intros; discriminate.
+  - intros; discriminate.
+  - split; auto. intros o. rewrite nth_fun_ocfg. repeat split.
+Qed.
+
+Theorem refines_rlock_spec_procs_lemma :
+  forall ocfg tcfg ops fuel,
+    let reent := cfgo_reent ocfg in
+    let dflt := cfgo_dflt ocfg in
+    let oproc := cfgo_proc ocfg in
+    let tproc := cfgt_proc tcfg in
+    ok_calls reent dflt None ops = true ->
+    (forall tc, In tc ops -> call_proc_ok oproc tproc tc) ->
+    (forall tc, In tc ops -> call_fuel_ok dflt fuel (snd tc)) ->
+    length ops + 4 <= fuel ->
+    let conc := run_calls fuel (init_cfg ocfg tcfg []) ops in
+    let spec := spec_calls reent dflt None ops in
+    fst conc = fst spec /\
+    (no_block (fst spec) = true ->
+       Rq reent dflt oproc tproc (snd conc) (snd spec) /\
+       (forall o, is_locked (snd conc) o = spec_is_locked (snd spec) o) /\
+       nfds (snd conc) = match snd spec with Some _ => 1 | None => 0 end).
+Proof.
+  intros ocfg tcfg ops fuel reent dflt oproc tproc Hok Hpo Hfu Hd conc spec.
+  assert (Hd' : depth None + length ops + 4 <= fuel) by (cbn; lia).
+  destruct (refines_lemma reent dflt oproc tproc fuel ops _ None (Rq_init_cfg ocfg tcfg) Hok Hpo Hfu Hd') as [A B].
+  split; auto. intros Nb. specialize (B Nb). split; auto. split.
+  - intros o. eapply Rq_is_locked; eauto.
+  - eapply Rq_nfds; eauto.
 Qed.
